@@ -71,3 +71,12 @@ static void vviol(const char *prop, const char *key, const char *fmt, ...)
 	}
 	pthread_mutex_unlock(&vv_mx);
 }
+
+/* Self-destruct backstop: the driver passes VERIF_BACKSTOP (seconds); an engine orphaned by a killed driver dies by SIGALRM. */
+#include <stdlib.h>
+#include <unistd.h>
+__attribute__((constructor, unused)) static void vbackstop_arm(void)
+{
+	const char *b = getenv("VERIF_BACKSTOP");
+	alarm(b ? (unsigned)atoi(b) : 3600);
+}
